@@ -12,7 +12,7 @@ from fractions import Fraction as F
 import numpy as np
 
 from rv.core import ctx as _ctx
-from rv.core import instrument, scribble
+from rv.core import calling, instrument, scribble
 from rv.core.tolerances import OPEN_END_EPS
 
 ANCHORS = ("arrays/operations.py", "arrays/dimensions.py")
@@ -64,6 +64,11 @@ def _mk(start, step, n, with_attr, two_d=False):
     return out
 
 
+def _same_array(x, y):
+    return (list(x.dims) == list(y.dims) and np.array_equal(np.asarray(x.time.data), np.asarray(y.time.data))
+            and np.array_equal(np.asarray(x.data), np.asarray(y.data), equal_nan=True))
+
+
 def _vals(res):
     d = np.asarray(res.data)
     return d if d.ndim == 1 else d[:, 0]
@@ -89,6 +94,10 @@ def judge_crop(ctx, start, step, n, a, b, lc, rc, with_attr, two_d, arr=None, hi
     except Exception as e:
         ctx.violate_exc("crop:raises", f"crop:raises:{type(e).__name__}", e, spec=spec)
         return
+    if ctx.every(spec, 3) and history is None:
+        calling.agree(ctx, "crop_dim", O.crop_dim, dict(arr=arr, dim="time", start=a, stop=b, right_closed=rc, left_closed=lc), spec, same=_same_array,
+                      variants={"boolish_flags": {"left_closed": calling.boolish(ctx.rng, lc), "right_closed": calling.boolish(ctx.rng, rc)},
+                                "numlike_bounds": {"start": calling.numlike(ctx.rng, a), "stop": calling.numlike(ctx.rng, b)}})
     ctx.mon("crop.oracle")
     lo = coords[0] if a is None else a
     hi = coords[-1] if b is None else b
@@ -161,6 +170,10 @@ def judge_extend(ctx, start, step, n, a, b, lc, rc, with_attr, two_d, arr=None, 
     except Exception as e:
         ctx.violate_exc("extend:raises", f"extend:raises:{type(e).__name__}", e, spec=spec)
         return
+    if ctx.every(spec, 3) and history is None:
+        calling.agree(ctx, "extend_dim", O.extend_dim, dict(arr=arr, dim="time", start=a, stop=b, fill_value=FILL, left_closed=lc, right_closed=rc), spec, same=_same_array,
+                      variants={"boolish_flags": {"left_closed": calling.boolish(ctx.rng, lc), "right_closed": calling.boolish(ctx.rng, rc)},
+                                "numlike_bounds": {"start": calling.numlike(ctx.rng, a), "stop": calling.numlike(ctx.rng, b)}})
     ctx.mon("extend.oracle")
     gc = np.asarray(res.time.data)
     vals = _vals(res)
@@ -222,6 +235,8 @@ def judge_width(ctx, start, step, n, width, position, with_attr, fn, two_d):
     except Exception as e:
         ctx.violate_exc("width:raises", f"width:raises:{type(e).__name__}", e, spec=spec)
         return
+    if width >= 1 and ctx.every(spec, 4):
+        calling.agree(ctx, fn, instrument.original(f), dict(array=arr, dim="time", width=width, **kw), spec, same=_same_array)
     ctx.mon("width.oracle")
     if width < 1:
         ctx.violate("width:rejects_lt_1", "width:rejects_lt_1", observed=int(res.sizes["time"]), expected="ValueError", spec=spec)
